@@ -1545,3 +1545,40 @@ fn names_to_offsets_v(names: Vec<String>, recs: &[VRec]) -> String {
         .collect::<Vec<_>>()
         .join(",")
 }
+
+/// kind `bcfb` (c04_bytes.rs): the uncompressed stream of a BCF file written by bcf::io::Writer
+/// (magic, header text, records; with and without samples, short and long REF, END spans)
+pub fn bcfb_raw_stream(rng: &mut Rng) -> io::Result<Vec<u8>> {
+    use std::io::Read as _;
+    let ver = *rng.pick(&[43u32, 44]);
+    let nctg = rng.range(1, 3) as usize;
+    let nsamp = rng.below(3) as usize;
+    let n = match rng.below(4) {
+        0 => rng.range(0, 2),
+        1 => rng.range(2, 8),
+        _ => rng.range(5, 30),
+    };
+    let mut recs: Vec<VRec> = Vec::new();
+    let mut chrom = 0u64;
+    let mut s = rng.range(1, 100_000);
+    for _ in 0..n {
+        if chrom + 1 < nctg as u64 && rng.chance(1, 8) {
+            chrom += 1;
+            s = rng.range(1, 100_000);
+        }
+        s += match rng.below(3) { 0 => 0, 1 => rng.below(50), _ => rng.below(1 << 15) };
+        let reflen = if rng.chance(1, 10) { rng.range(500, 4000) } else { rng.range(1, 30) };
+        let mut r = VRec { chrom, pos: s, reflen, end: None, svlen: None, len: None, alts: vec![b'S'], a: 0, b: 0 };
+        if rng.chance(1, 4) {
+            r.alts = vec![*rng.pick(b"DUVC")];
+            r.end = Some((s + rng.range(1, 1 << 16)) as i64);
+        } else if rng.chance(1, 8) {
+            r.alts = vec![];
+        }
+        recs.push(r);
+    }
+    let data = build_vcf(true, ver, nctg, nsamp, &recs)?;
+    let mut raw = Vec::new();
+    flate2::read::MultiGzDecoder::new(&data[..]).read_to_end(&mut raw)?;
+    Ok(raw)
+}
